@@ -26,6 +26,7 @@ class EnumDef:
     omit_exh: bool = False      # leave out the exhaustive argument (means false)
     native_name: bool = True    # (kept for clarity) storage written as uN
     dead_first: bool = False    # declare the #[cfg(any())] variants before the live ones (they may share discriminants with live ones)
+    exh_first: bool = False     # write `exhaustive = ..` before the storage type (undocumented argument order)
     alias: str = ''             # fixed type name (e.g. `Q3`: a user type whose name looks like letter + digits)
 
     @property
@@ -33,7 +34,7 @@ class EnumDef:
         if self.alias:
             return self.alias
         import hashlib
-        h = hashlib.sha1(repr((self.n, self.exhaustive, self.discs, self.dead, self.spell, self.omit_exh, self.dead_first)).encode()).hexdigest()[:8]
+        h = hashlib.sha1(repr((self.n, self.exhaustive, self.discs, self.dead, self.spell, self.omit_exh, self.dead_first, self.exh_first)).encode()).hexdigest()[:8]
         return f"E{self.n}_{h}"
 
 
@@ -100,3 +101,4 @@ class Struct:
     derives: str = ''           # user derives passed through the macro, e.g. '#[derive(PartialEq, Eq)]'
     vis: str = 'pub'            # struct visibility: 'pub' | 'pub(crate)' | '' (private)
     doc_after_attrs: bool = False   # place the struct's doc comment after the user's attributes
+    debug_first: bool = False       # write `debug` before `default = ..` in the bitfield attribute
